@@ -1360,7 +1360,7 @@ func propC18(r *Run, w *World) {
 			}
 			r.Check(ok, "readBuf stored by NewNetlinkClient", a.Instr.Pos(), "fresh positive-size buffer, or the caller's non-empty buffer", "the read buffer stored into the client can be "+detail)
 		}
-		r.Check(n == 1, "one store of readBuf", fn.Pos(), "", fmt.Sprintf("%d stores of the read buffer in the constructor", n))
+		r.Check(n >= 1, "readBuf is stored by the constructor", fn.Pos(), "", "the constructor never stores a read buffer")
 	}
 	r.Rule("C18.R4", "parseNetlinkAuditMessage: the header view and buf[NLMSG_HDRLEN:] are dominated by len(buf) >= NLMSG_HDRLEN; exactly one message; a short buffer is an error", 2)
 	{
